@@ -14,7 +14,7 @@ CFG = {
             "genesis_read_legacy_panics", "read_language_can_panic", "canonical_total", "canonical_legacy_panics_iff",
             "no_values_iff", "commit_qc_verify_total", "timeout_qc_verify_total", "replica_timeout_verify_total",
             "justification_verify_total", "commit_qc_len_check_is_load_bearing", "implied_block_total_of_verified",
-            "implied_block_panics_at_max", "view_next_wraps_release_panics_checked", "selection_with_max_view"],
+            "implied_block_panics_at_max", "replica_vote_caches_total", "commit_qc_add_twice_fails", "view_next_wraps_release_panics_checked", "selection_with_max_view"],
         "technique": "Lean 4 totality theorems over executable models with explicit panic outcomes (masks and buffer "
                      "constants regenerated from header.rs / noise/stream.rs by the translator) + differential run of every "
                      "network entry point against the models",
@@ -32,12 +32,16 @@ CFG = {
                       "Genesis::read is total for every protocol_version; canonical_raw is total on every field map; "
                       "CommitQC/ReplicaTimeout/TimeoutQC/ProposalJustification::verify are total for any signer bitmap lengths and "
                       "any view/block numbers, get_implied_block is total after verification unless a quorum certified block "
-                      "2^64-1. The repairs of F3, F4, F5, F9 are load-bearing: the pre-repair transcriptions are proved to panic "
+                      "2^64-1; on_commit / on_timeout never reach their two .expect(\"could not add ...\"), the "
+                      "remove(..).unwrap()s or get_justification's assert on any sequence of signed votes (inductive invariant "
+                      "over the vote caches). The repairs of F3, F4, F5, F9, F10 (Display of time::Utc) and F11 (Debug of "
+                      "time::Utc) are load-bearing: the pre-repair transcriptions are proved to panic "
                       "on the concrete witnesses. NOT modelled (third party, only exercised by the correspondence run): "
                       "prost/quick_protobuf byte decoding, snow (Noise handshake and AEAD), blst / ed25519-dalek key and signature "
-                      "validation, semver, tokio; they enter the models as arbitrary oracles. NOT modelled: the replica's "
-                      "stateful handlers (vote caches and the two .expect(\"could not add\")) - extreme well-signed messages are "
-                      "only fed to a real replica under a panic monitor; memory safety and allocation failure.",
+                      "validation, semver, tokio; they enter the models as arbitrary oracles. NOT modelled: on_proposal / on_new_view "
+                      "beyond what runs before and during verification (view(), view_leader is C11, verify, get_implied_block), "
+                      "block storage and persistence - extreme well-signed proposals / new-views are only fed to a real replica "
+                      "under a panic monitor; memory safety and allocation failure.",
         "level_note": "F6 (ViewNumber::next = self.0 + 1 on the view of an unverified certificate, in the queue selection "
                       "function and on_new_view/on_proposal) is modelled with the shipping semantics (wraps to 0; theorem "
                       "view_next_wraps_release_panics_checked also states the checked-build panic); it does not manifest in "
@@ -64,7 +68,10 @@ CFG = {
                 "noise: authentic, empty, tampered, junk and truncated frames up to 65535 bytes under several fragmentations; "
                 "canonical_raw on a schema with repeated scalars incl. empty packed chunks; selection function on the view "
                 "wrap-around grid; CommitQC/TimeoutQC verification and get_implied_block on bitmaps of every length class and "
-                "extreme view/block numbers; extreme well-signed messages into a real replica. distinct = distinct op lines; "
+                "extreme view/block numbers; N/8 sequences of signed commit/timeout votes into a fresh real replica (full rounds "
+                "that form certificates and advance / wrap the view, duplicates, non-members, bad signatures, foreign "
+                "genesis/epoch, malformed high certificates) compared verdict by verdict with the cache model; extreme "
+                "well-signed messages into a real replica. distinct = distinct op lines; "
                 "non-trivial = not the modal observation class",
         "trusted": ["the hand transcription of the Rust functions into Lean/Model/C10*.lean (checked only by the differential run)",
                     "the constant / mask extraction of tools/translate.py for header.rs and noise/stream.rs",
